@@ -19,6 +19,7 @@ def _alarm(signum, frame):
 
 
 SESSION = dict(reuse=False, abort=False, strict_fp=False)
+OFF = [False]
 
 
 def _init():
@@ -26,7 +27,7 @@ def _init():
     if core.REPO not in sys.path:
         sys.path.insert(0, core.REPO)
     signal.signal(signal.SIGALRM, _alarm)
-    if not os.environ.get("VERIF_NO_SESSION"):
+    if not os.environ.get("VERIF_NO_SESSION") and not OFF[0]:
         session.install(**SESSION)
 
 
@@ -41,19 +42,20 @@ def _run(args):
         rec = dict(fn=job.get("fn", "?"), timeout=1)
     finally:
         signal.setitimer(signal.ITIMER_REAL, 0)
-    if not os.environ.get("VERIF_NO_SESSION"):
+    if not os.environ.get("VERIF_NO_SESSION") and not OFF[0]:
         flags = session.end_of_job(job)
         if flags and isinstance(rec, dict):
             rec["session_flags"] = flags
     return rec
 
 
-def run_jobs(modname, jobs, limit=20.0, procs=None, reuse=False, abort=False, strict_fp=False):
+def run_jobs(modname, jobs, limit=20.0, procs=None, reuse=False, abort=False, strict_fp=False, probes=True):
     """exec_job(job) -> record for every job, in order.  A call that exceeds
     `limit` seconds yields {'timeout': 1} (inconclusive, never a violation).
     reuse / abort: the opt-in call-sequence probes of harness/session.py."""
     procs = procs or core.NCPU
     SESSION.update(reuse=reuse, abort=abort, strict_fp=strict_fp)
+    OFF[0] = not probes        # probes=False: a driver that observes inner calls by its own recorder (x02)
     os.environ["BCTPY_VERIF"] = "1"
     os.environ.setdefault("PYTHONHASHSEED", "0")
     if len(jobs) <= 2 or procs == 1:
